@@ -83,6 +83,12 @@ class Deflate(object):
             ]
 
         data.append(self._decompressobj.decompress(b"\x00\x00\xff\xff"))
+        while self._decompressobj.unused_data:
+            # The peer ended its DEFLATE stream (a block with BFINAL
+            # set, see RFC 7692 7.2.3.4), what follows is a new stream
+            unused_data = self._decompressobj.unused_data
+            self.reset_decompressor()
+            data.append(self._decompressobj.decompress(unused_data))
         payload = b''.join(data)
         if self.reset_decompress:
             self.reset_decompressor()
